@@ -117,6 +117,22 @@ func genRestartSlowShutdown(rng *rand.Rand, i int) LifeSpec {
 	return spec
 }
 
+// genRestartProbeCase: the command never exits by itself; every attempt is
+// ended by the supervisor because its first readiness probe fails
+// (failure_threshold 1). The relaunch decision is the same table.
+func genRestartProbeCase(rng *rand.Rand, i int) LifeSpec {
+	spec := LifeSpec{BackoffUnitMs: 20, SilenceMs: 8000}
+	code := []int{-1, 2, 0, 143}[i%4]
+	p := PSpec{Name: "r0", RunMs: []int{-1}, Probe: true, ProbeFail: 1, Exits: []int{code}, Sig: &sim.SigSpec{Ms: rng.Intn(4), Code: &code}}
+	p.Restart = []string{"always", "on_failure", "no", ""}[(i/4)%4]
+	p.MaxRestarts = 1 + rng.Intn(2)
+	for k := 0; k < 8; k++ {
+		p.ProbeSeq = append(p.ProbeSeq, 0)
+	}
+	spec.Procs = []PSpec{p}
+	return spec
+}
+
 // ------------------------------------------------------------------ C03 gen
 
 var c03Points = []string{"Run.loop", "runner.spawned", "runner.released", "run.enter", "run.afterTermCheck", "run.beforeLaunch",
@@ -166,6 +182,7 @@ func genShutdownCase(rng *rand.Rand, i int) (LifeSpec, string) {
 	// the ready lines are printed at once so the graph comes up
 	spec.Ops = append(spec.Ops, Op{When: "now", Op: "ready", Proc: "a"}, Op{When: "now", Op: "ready", Proc: "b"}, Op{When: "now", Op: "ready", Proc: "t"})
 	trig := PSpec{Name: "x", RunMs: []int{-1}, Exits: []int{3}}
+	slowLoop := false
 	hold := sim.Hold{Point: point, Name: "t", MaxMs: 250, Tag: "h"}
 	when := "hold:h"
 	switch point {
@@ -192,10 +209,23 @@ func genShutdownCase(rng *rand.Rand, i int) (LifeSpec, string) {
 		spec.Ops = append(spec.Ops, Op{When: "launch:t", Op: "stop", Proc: "t", Async: true})
 	case "Run.loop":
 		hold.Name = []string{"b", "t", "c", "x"}[rng.Intn(4)]
+		if rng.Intn(2) == 0 {
+			// the hold ends while the shutdown is still busy stopping the
+			// processes launched by earlier iterations (slow to die)
+			slowLoop = true
+			hold.MaxMs = 10 + rng.Intn(20)
+			for _, q := range []*PSpec{&a, &b, &c, &t} {
+				q.Sig = &sim.SigSpec{Ms: 60 + rng.Intn(60)}
+			}
+		}
 	}
 	switch trigger {
 	case "api":
-		spec.Ops = append(spec.Ops, Op{When: when, Op: "shutdown", Release: []string{"h"}})
+		rel := []string{"h"}
+		if slowLoop {
+			rel = nil
+		}
+		spec.Ops = append(spec.Ops, Op{When: when, Op: "shutdown", Release: rel})
 	case "exit_on_failure":
 		trig.Restart = "exit_on_failure"
 		spec.Ops = append(spec.Ops, Op{When: when, Op: "release", Proc: "x"})
@@ -270,7 +300,22 @@ func genShutdownRandom(rng *rand.Rand) LifeSpec {
 // ------------------------------------------------------------------ C08 gen
 
 func genManualCase(rng *rand.Rand, i int) LifeSpec {
-	spec := LifeSpec{BackoffUnitMs: 20}
+	spec := LifeSpec{BackoffUnitMs: 20, Ordered: i%5 == 3}
+	if i%10 == 9 {
+		// a replicated process: requests address single replicas, the first ones
+		// arrive while Run() has not reached that replica yet
+		n := 2 + rng.Intn(2)
+		spec.Procs = []PSpec{{Name: "mr", Replicas: n, RunMs: []int{-1}, Sig: &sim.SigSpec{Ms: rng.Intn(10)}}, {Name: "mz", RunMs: []int{-1}}}
+		t := fmt.Sprintf("mr-%d", rng.Intn(n))
+		spec.Holds = []sim.Hold{{Point: "Run.loop", Name: []string{t, "mr-0", "mz"}[rng.Intn(3)], Nth: 1, MaxMs: 100, Tag: "h"}}
+		spec.Ops = []Op{{When: "hold:h", Op: "start", Proc: t, Release: []string{"h"}}}
+		for s := 0; s < 2+rng.Intn(6); s++ {
+			spec.Ops = append(spec.Ops, Op{When: fmt.Sprintf("pause:%d", rng.Intn(25)), Op: []string{"start", "stop", "restart"}[rng.Intn(3)], Proc: fmt.Sprintf("mr-%d", rng.Intn(n))})
+		}
+		spec.EndWithShutdown = true
+		spec.SilenceMs = 4000
+		return spec
+	}
 	n := 1 + rng.Intn(3)
 	for k := 0; k < n; k++ {
 		p := PSpec{Name: fmt.Sprintf("m%d", k), RunMs: []int{-1}}
@@ -339,10 +384,28 @@ func genManualCase(rng *rand.Rand, i int) LifeSpec {
 func genOrderedCase(rng *rand.Rand, i int) LifeSpec {
 	spec := LifeSpec{BackoffUnitMs: 20, Ordered: true}
 	n := 3 + rng.Intn(6)
-	shape := i % 5
+	shape := i % 7
+	if shape == 5 {
+		// o0 completes, its dependents (process_completed[_successfully]) start,
+		// o0 is started again by hand, then the ordered shutdown begins: o0 must
+		// outlive its running dependents
+		n = 2 + rng.Intn(3)
+		spec.Procs = append(spec.Procs, PSpec{Name: "o0", RunMs: []int{1 + rng.Intn(3), -1}, Exits: []int{0}, Sig: &sim.SigSpec{Ms: rng.Intn(20)}})
+		for k := 1; k < n; k++ {
+			c := []string{types.ProcessConditionCompleted, types.ProcessConditionCompletedSuccessfully}[rng.Intn(2)]
+			spec.Procs = append(spec.Procs, PSpec{Name: fmt.Sprintf("o%d", k), RunMs: []int{-1}, Sig: &sim.SigSpec{Ms: 30 + rng.Intn(70)}, Deps: []Dep{{On: "o0", Cond: c}}})
+		}
+		spec.Ops = []Op{{When: fmt.Sprintf("launch:o%d", n-1), Op: "start", Proc: "o0"}, {When: "launch:o0:2", Op: "sleep", N: 1 + rng.Intn(8)}, {When: "now", Op: "shutdown"}}
+		spec.SilenceMs = 4000
+		return spec
+	}
+	gshape := shape
+	if shape == 6 {
+		gshape = []int{0, 1, 3}[rng.Intn(3)]
+	}
 	for k := 0; k < n; k++ {
 		p := PSpec{Name: fmt.Sprintf("o%d", k), RunMs: []int{-1}, Sig: &sim.SigSpec{Ms: rng.Intn(80)}}
-		switch shape {
+		switch gshape {
 		case 0: // chain
 			if k > 0 {
 				p.Deps = []Dep{{On: fmt.Sprintf("o%d", k-1), Cond: types.ProcessConditionStarted}}
@@ -380,6 +443,16 @@ func genOrderedCase(rng *rand.Rand, i int) LifeSpec {
 			p.RunMs = []int{rng.Intn(5)}
 		}
 		spec.Procs = append(spec.Procs, p)
+	}
+	if shape == 6 {
+		// fault: the signal call of one dependent reports an error (EPERM) while
+		// the command stays alive for a while; its dependencies still have to wait
+		for k := n - 1; k > 0; k-- {
+			if len(spec.Procs[k].Deps) > 0 && spec.Procs[k].RunMs[0] < 0 {
+				spec.Procs[k].Sig = &sim.SigSpec{Mode: "eperm", Ms: 40 + rng.Intn(60)}
+				break
+			}
+		}
 	}
 	at := 10 + rng.Intn(30)
 	if i%4 == 1 && n > 1 {
@@ -421,6 +494,8 @@ func init() {
 					cs = append(cs, fw.MkCase("C02", "restart-stop", s, genRestartStopCase(rng, i/3)))
 				} else if i%12 == 1 {
 					cs = append(cs, fw.MkCase("C02", "restart-slow-shutdown", s, genRestartSlowShutdown(rng, i/12)))
+				} else if i%100 == 4 {
+					cs = append(cs, fw.MkCase("C02", "restart-probe-stop", s, genRestartProbeCase(rng, i/100)))
 				} else {
 					cs = append(cs, fw.MkCase("C02", "restart-grid", s, genRestartCase(rng, i)))
 				}
@@ -464,6 +539,12 @@ func init() {
 			for i := 0; i < tierN(tier, 200, 4000); i++ {
 				s := fw.SubSeed(seed, 7000000+i)
 				cs = append(cs, fw.MkCase("C03", "repeated", s, genShutdownRepeated(fw.Rand(s), i)))
+			}
+			// request histories (explicitly started disabled processes included)
+			// that end with a shutdown, ordered or not
+			for i := 0; i < tierN(tier, 600, 10000); i++ {
+				s := fw.SubSeed(seed, 8000000+i)
+				cs = append(cs, fw.MkCase("C03", "manual-then-shutdown", s, genManualCase(fw.Rand(s), i)))
 			}
 			return cs
 		},
